@@ -197,7 +197,7 @@ def run_shards(prop_id: str, cases, tier: str, seed: int, jobs: int):
             for i in idxs:
                 c = cases[i]
                 fh.write(json.dumps({"i": i, "input": c["input"], "digest_size": c.get("digest_size"),
-                                     "opts": c.get("opts")}) + "\n")
+                                     "opts": c.get("opts"), "cfg": c.get("cfg", 0)}) + "\n")
         env = dict(os.environ)
         env["PYTHONPATH"] = os.environ.get("VERIF_PYOAK_SRC", "/repo/src") + ":" + ROOT
         env["PYTHONHASHSEED"] = str((seed * 7919 + k * 104729 + 1) % 4294967295)
@@ -347,7 +347,8 @@ def main():
     # ---- replay mode
     if args.replay:
         rp = json.load(open(args.replay))
-        cases = [{"input": rp["input"], "digest_size": rp.get("digest_size"), "opts": rp.get("opts"), "kind": "replay"}]
+        cases = [{"input": rp["input"], "digest_size": rp.get("digest_size"), "opts": rp.get("opts"), "cfg": rp.get("cfg", 0),
+                  "kind": "replay"}]
         res = run_shards(prop_id, cases, tier, args.seed, 1)
         r = res[0]
         diffs = prop.compare(from_text(cases[0]["input"]), from_text(r["impl"]), from_text(r["model"]))
@@ -367,6 +368,15 @@ def main():
     for c in cases:
         if not isinstance(c["input"], str):
             c["input"] = to_text(c["input"])
+    # the configuration dimension (harness/worker.py): no property depends on pyoak's tracing switch, and building
+    # well-typed trees does not depend on the runtime type check; a quarter of the generated cases runs with tracing on,
+    # an eighth with the type check on (properties whose generators build ill-typed values opt out: CONFIG_MODES)
+    # (the type check only where every generated tree is well typed by construction: histories and mutation pairs of the
+    # other properties deliberately contain children / values of other types, which pyoak without the check accepts)
+    rtc_ok = prop_id in ("C04", "C05", "C06", "C07", "C08", "C12", "C15", "C16")
+    modes = getattr(prop, "CONFIG_MODES", (0, 0, 0, 0, 1, 1, 2, 0) if rtc_ok else (0, 0, 0, 1, 0, 1, 0, 0))
+    for k, c in enumerate(gen):
+        c.setdefault("cfg", modes[k % len(modes)])
     results = run_shards(prop_id, cases, tier, args.seed, args.jobs) if driver_ok else []
 
     # a time-out or a dead worker on a loaded machine is not a verdict: re-run those cases alone with a long limit
@@ -456,7 +466,7 @@ def main():
                 small = dict(c, impl=r["impl"], model=r["model"], diffs=diffs)
             n_rep += 1
             p = write_replay(prop_id, n_rep, {"property": prop_id, "kind": "failing-input", "clauses": small["diffs"],
-                                             "input": small["input"], "digest_size": small.get("digest_size"), "opts": small.get("opts"),
+                                             "input": small["input"], "digest_size": small.get("digest_size"), "opts": small.get("opts"), "cfg": small.get("cfg", 0),
                                              "impl": small["impl"], "model": small["model"], "case_kind": c.get("kind")})
             vio_lines.append(f"VIOLATION property={prop_id} replay={p}")
         if not spec_v:
@@ -472,7 +482,7 @@ def main():
                                                  "note": "the implementation no longer matches the model the theorems are about, on an observable "
                                                          "the property does not fix; no input violating the property's own clauses was found",
                                                  "disagreeing_cases": len(violations),
-                                                 "input": c["input"], "digest_size": c.get("digest_size"), "opts": c.get("opts"),
+                                                 "input": c["input"], "digest_size": c.get("digest_size"), "opts": c.get("opts"), "cfg": c.get("cfg", 0),
                                                  "impl": r["impl"], "model": r["model"]})
                 vio_lines.append(f"VIOLATION property={prop_id} replay={p} no-failing-input-found")
     failed_obl = [o for o in obligations if not o["ok"] and not o["name"].startswith(f"corr:{prop_id}:model-vs")]
